@@ -32,10 +32,17 @@ static int clip_has(const clip_t *c, int x, int y)
     for (int i = 0; i < c->n; i++) if (x >= c->b[i].x1 && x < c->b[i].x2 && y >= c->b[i].y1 && y < c->b[i].y2) return 1;
     return 0;
 }
+/* clips have a history: every other image first held a larger clip (five boxes), then an empty one, before it is given the clip under test */
+static int g_clip_history;
 static void clip_apply(pixman_image_t *img, const clip_t *c)
 {
     if (c->none) return;
     pixman_region32_t r;
+    if (g_clip_history) {
+        pixman_box32_t old[5] = { { 0, 0, 1, 1 }, { 2, 0, 3, 1 }, { 4, 0, 6, 1 }, { 0, 1, 2, 2 }, { 3, 1, 40, 3 } };
+        pixman_region32_init_rects(&r, old, 5); pixman_image_set_clip_region32(img, &r); pixman_region32_fini(&r);
+        if (g_clip_history == 2) { pixman_region32_init(&r); pixman_image_set_clip_region32(img, &r); pixman_region32_fini(&r); }
+    }
     pixman_region32_init_rects(&r, c->b, c->n);
     pixman_image_set_clip_region32(img, &r);
     pixman_region32_fini(&r);
@@ -109,6 +116,7 @@ static void c3_case(uint64_t idx, void *vctx)
     c3_ctx *c = vctx;
     int th = c->thorough;
     int nso = th ? NSOPT : NSOPT_Q;
+    g_clip_history = (int)(idx % 3);             /* 0: fresh images; 1: each clipped image held a five-box clip before; 2: that, then an empty clip */
     int sz = (int)(idx % 2); idx /= 2;
     int fi = (int)(idx % NDFMT); idx /= NDFMT;
     int dclip_k = (int)(idx % 7); idx /= 7;
@@ -239,6 +247,7 @@ static void c3_case(uint64_t idx, void *vctx)
 /* ---------- other entry points: changed pixels are confined to bounds ∩ clip (∩ boxes) ---------- */
 static void other_case(uint64_t idx, void *vctx)
 {
+    g_clip_history = (int)(idx % 3);
     int sz = (int)(idx % 2); idx /= 2; int fi = (int)(idx % NDFMT); idx /= NDFMT; int dclip_k = (int)(idx % 7); idx /= 7; int ep = (int)(idx % 5); idx /= 5; int geo = (int)idx;  /* 0..20 */
     int W = DSIZE[sz][0], H = DSIZE[sz][1];
     pixman_format_code_t fmt = DFMT[fi]; int bpp = PIXMAN_FORMAT_BPP(fmt);
